@@ -148,6 +148,19 @@ def _run_once(prog, at: int, exc, record: bool = False) -> Dict[str, Any]:
         provtrace.mark_end(bool(res["err"]))
         res["ptrace"] = provtrace.project(provtrace.stop(), pre)
     PLAN.update(exc=None, log=[])
+    if res["err"] and at > 0:
+        # "every later render behaves as if the failed one had never happened" - also a later render that is handed the
+        # SAME Context object (a view that catches the error and renders a fallback with its context)
+        PLAN.update(n=0, at=-1, exc=None, log=[])
+        try:
+            res["same_ctx_out"] = P.tokens(Template(P.page_src(prog)).render(ctx))[0]
+            res["same_ctx_err"] = ""
+        except BaseException as e2:  # noqa: BLE001
+            res["same_ctx_out"] = None
+            res["same_ctx_err"] = type(e2).__name__
+            e2.__traceback__ = None
+            del e2
+        PLAN.update(exc=None, log=[])
     del ctx, marker, ctxd
     gc.collect()
     res["alive"] = sum(1 for r in refs if r() is not None)
@@ -239,6 +252,10 @@ def judge(chk: Check, prog, exp, res) -> None:
         bad = {k: v for k, v in r["after_residue"].items() if v}
         if bad:
             chk.violation(c, {"what": "residue-after-next-render", "residue": bad})
+            continue
+        if "same_ctx_err" in r and (r["same_ctx_err"] != dry["err"] or r["same_ctx_out"] != dry["out"]):
+            chk.violation(c, {"what": "next-render-with-the-same-Context-affected", "expected": dry["out"],
+                              "observed": r["same_ctx_out"], "observed_err": r["same_ctx_err"]})
     path_check(chk, prog, exp, res, case)
     if res.get("growth", 0) > 40:
         chk.violation(dict(case, fault=res.get("growth_point")), {"what": "memory-grows-on-repeated-failing-render",
